@@ -26,7 +26,8 @@ def rand_op(of, rng, clsname):
         if clsname == 'QubitOperator': t = tuple((q, rng.choice(acts)) for q in sorted(rng.sample(pool, min(L, len(pool)))))
         else: t = tuple((rng.choice(pool), rng.choice(acts)) for _ in range(L))
         c = rng.choice([1, -1, 3, 0.5, -2.25, 1e-3, 1.5e10, 1j, -2j, 0.5 - 1.5j, -1 + 0.25j, -0.0 - 1j, 1e-9, -3e-12, 2e-9j,
-                        np.float64(0.75), np.complex128(1 - 2j), np.int64(4), np.float32(0.5), np.complex64(0.5 + 1.5j), np.complex64(-2j), np.float16(0.25), np.int32(-3), 1 / 3, -7.123456789012345e-5, complex(1 / 3, -2 / 7)])
+                        np.float64(0.75), np.complex128(1 - 2j), np.int64(4), np.float32(0.5), np.complex64(0.5 + 1.5j), np.complex64(-2j), np.float16(0.25), np.int32(-3), 1 / 3, -7.123456789012345e-5, complex(1 / 3, -2 / 7),
+                        complex(1, 1e-6), complex(250, -2e-3), complex(-3, 4e-9), complex(1e-7, 1), complex(2e-9, -5e4), complex(1, 1e-13)])
         if kind < 0.16: c = rng.choice([1e-9, -3e-12, 2e-9j, 5e-10])   # all coefficients negligible
         op.terms[cls(t).terms.__iter__().__next__()] = c             # canonical key of the class
     return op
